@@ -192,7 +192,9 @@ def correspondence(ctx):
 def search(ctx):
     """The property's clauses evaluated on the implementation's own call/sleep log."""
     cl = classes()
-    cases = grid(ctx)
+    # retry_delay is a number of seconds, not necessarily whole (search only: the model logs the delay it is given, as an integer)
+    frac = [(att, d, [21], [], [(21,)] * nf + ["v"], False) for att in (2, 3, 4) for d in (0.5, 0.25, 1.5, 2.75, 1e-3) for nf in range(0, att + 1)]
+    cases = grid(ctx) + frac
     found = []
     for ci, c in enumerate(cases):
         att, delay, rf, dnr, script, dyn = c
